@@ -52,6 +52,13 @@ func weatherProjects(c *core.Ctx, n int) []*gen.Project {
 			y := []int{1999, 2003, 2007, 2011, 1983}[r.Intn(5)]
 			o.StartYearMin, o.StartYearMax = y, y
 		}
+		leapTail := i%6 == 1 && layout != 0 && i%12 == 7
+		if leapTail {
+			// the last day of a LEAP year that is not the last year is missing (the year still has 365 records)
+			y := []int{1999, 2003, 2007, 2011, 1983}[r.Intn(5)]
+			o.StartYearMin, o.StartYearMax = y, y
+			o.Years = 3
+		}
 		p := gen.Random(r, fmt.Sprintf("x%d_%d", c.Seed, i), o)
 		p.Cfg.AnnualM, p.Cfg.AnnualD = 1, 1+r.Intn(20) // annual output early in the year: the run is not extended past its end date
 		w := &p.Weather
@@ -182,6 +189,11 @@ func weatherProjects(c *core.Ctx, n int) []*gen.Project {
 		case i%6 == 1 && layout != 0 && endYear > p.Cfg.StartYear: // the tail of a year that is not the last one is missing
 			y := p.Cfg.StartYear + r.Intn(endYear-p.Cfg.StartYear)
 			g0 := gen.DayNum(y, 12, 31) - r.Intn(60)
+			if leapTail && (p.Cfg.StartYear+1)%4 == 0 && p.Cfg.StartYear+1 < endYear {
+				y = p.Cfg.StartYear + 1
+				g0 = gen.DayNum(y, 12, 31)
+				arms += " leapYearLacksItsLastDay"
+			}
 			if g0 > p.Rotation[0].Harv+2 {
 				for g := g0; g <= gen.DayNum(y, 12, 31); g++ {
 					w.Gaps = append(w.Gaps, g)
